@@ -58,14 +58,14 @@ fn main() {
             text = format!("// [shadow] stripped: {}\n{}", &text[..nl].replace("#!", "# !"), &text[nl + 1..]);
         }
         let name = rel.file_name().unwrap().to_str().unwrap();
-        if macos && (name == "arm64_codegenerator.rs" || name == "patch_arm64.rs") {
-            text = text.replace("target_os = \"macos\"", "all()");
-        }
         let inc = access.join(format!("{}.inc", name));
         if inc.exists() {
             println!("cargo:rerun-if-changed={}", inc.display());
             text.push_str("\n// ---- [shadow] accessor snippet appended by build.rs ----\n");
             text.push_str(&fs::read_to_string(&inc).unwrap());
+        }
+        if macos && (name == "arm64_codegenerator.rs" || name == "patch_arm64.rs") {
+            text = text.replace("target_os = \"macos\"", "all()");
         }
         let to = dst.join(rel);
         fs::create_dir_all(to.parent().unwrap()).unwrap();
